@@ -481,6 +481,36 @@ def job_hy_entry(job):
     if untouched:
         job._violation("hall-yarbrough/the first exit test is evaluated on the constant starting guess", {},
                        {"what": f"at the first data-dependent loop test y is still the constant {y_real!r}", "replayer": "replay_hy_low_pressure"}, None)
+    if job.tier != "quick":
+        # whole-number reduced pressures passed as Python ints: the same state as for the real of the same value
+        vs, dom = box(None, _integer=("p",), p=(1, 30), Tr=("1.05", 3))
+        states = {}
+        for kind in ("integer", "integer-as-real"):
+            p_arg = vs["p"] * K("1.0") if kind == "integer-as-real" else vs["p"]
+            got = []
+
+            def run_p():
+                S.Context.current.max_decisions = 0
+                try:
+                    return mod.z_factor_hallyarbrough(p_arg, vs["Tr"])
+                except S.Unsupported as e:
+                    if "too many symbolic decisions" not in str(e):
+                        raise
+                    tb = e.__traceback__
+                    while tb is not None:
+                        if tb.tb_frame.f_code.co_name == "z_factor_hallyarbrough":
+                            got.append(dict(tb.tb_frame.f_locals))
+                            break
+                        tb = tb.tb_next
+                    raise S.PathAbort()
+            res = paths(job, run_p, dom, max_paths=8)
+            if res or len(got) != 1:
+                raise S.Unsupported(f"Hall-Yarbrough[{kind} p_r]: no single captured state")
+            states[kind] = got[0]
+        ks = sorted(k for k in states["integer"] if isinstance(states["integer"][k], S.Sym) and k in states["integer-as-real"])
+        same_p = bool(ks) and all(repr(P(lift(states["integer"][k]))) == repr(P(lift(states["integer-as-real"][k]))) for k in ks)
+        job.record(f"hall-yarbrough/state at the first loop test ({', '.join(ks)}) is the same term for an integer and a real whole-number p_r",
+                   "unsat" if same_p else "unknown", 0.0, note="canonical-term identity; a difference is reported as not decided (no replay for this variant)")
     vi, di, gi = captured["integer"]
     vr, dr, gr = captured["integer-as-real"]
     names = sorted(k for k in gr if k in gi and isinstance(gr[k], S.Sym) or isinstance(gi.get(k), S.Sym))
